@@ -10,83 +10,6 @@ import PdshVerif.Hostlist.LemmasExpand
 namespace PdshVerif.Opt.Exclude
 open PdshVerif.Hostlist
 
-/-! ### pushing keeps the record identities distinct -/
-theorem pushRangeE_keeps (e : EL) (r : HRange) :
-    (e.IdsOk → (pushRangeE e r).IdsOk) ∧ (pushRangeE e r).its = e.its := by
-  have hfresh : (e.IdsOk → EL.IdsOk ⟨e.rs ++ [⟨e.nextId, r⟩], e.nhosts + r.count, e.nextId + 1, e.its⟩) := by
-    intro hid
-    refine ⟨?_, ?_⟩
-    · show ((e.rs ++ [(⟨e.nextId, r⟩ : RObj)]).map (·.id)).Nodup
-      rw [List.map_append, List.nodup_append]
-      refine ⟨hid.1, by simp, ?_⟩
-      intro a ha b hb
-      simp only [List.map_cons, List.map_nil, List.mem_singleton] at hb
-      obtain ⟨o, ho, rfl⟩ := List.mem_map.mp ha
-      have := hid.2 o ho
-      omega
-    · intro o ho
-      have ho' : o ∈ e.rs ++ [(⟨e.nextId, r⟩ : RObj)] := ho
-      simp only [List.mem_append, List.mem_singleton] at ho'
-      show o.id < e.nextId + 1
-      rcases ho' with ho' | rfl
-      · have := hid.2 o ho'; omega
-      · simp
-  unfold pushRangeE
-  simp only
-  cases hl : e.rs.getLast? with
-  | none => exact ⟨hfresh, rfl⟩
-  | some t =>
-    simp only
-    split
-    · generalize widthCombine t.r r = w
-      obtain ⟨ok, wt, wr⟩ := w
-      cases ok with
-      | false => exact ⟨hfresh, rfl⟩
-      | true =>
-        simp only
-        refine ⟨?_, trivial⟩
-        intro hid
-        have hne : e.rs ≠ [] := by intro h; simp [h] at hl
-        have hgl : e.rs.getLast hne = t := by
-          rw [List.getLast?_eq_some_getLast hne] at hl; exact Option.some.inj hl
-        have hsplit : e.rs = e.rs.dropLast ++ [t] := by
-          have := List.dropLast_concat_getLast hne
-          rw [hgl] at this; exact this.symm
-        have hids : (e.rs.dropLast ++ [({ t with r := { t.r with hi := r.hi, width := wt } } : RObj)]).map (·.id) =
-            e.rs.map (·.id) := by
-          conv => rhs; rw [hsplit]
-          simp
-        refine ⟨by show (List.map (·.id) (e.rs.dropLast ++ [_])).Nodup; rw [hids]; exact hid.1, ?_⟩
-        intro o ho
-        have : o.id ∈ (e.rs.dropLast ++ [({ t with r := { t.r with hi := r.hi, width := wt } } : RObj)]).map (·.id) :=
-          List.mem_map.mpr ⟨o, ho, rfl⟩
-        rw [hids] at this
-        obtain ⟨o', ho', he⟩ := List.mem_map.mp this
-        show o.id < e.nextId
-        rw [← he]; exact hid.2 o' ho'
-    · exact ⟨hfresh, rfl⟩
-
-theorem foldl_pushRangeE (rs : List HRange) : ∀ (e : EL), e.Good → (∀ r ∈ rs, r.Good) →
-    (rs.foldl pushRangeE e).Good ∧ (rs.foldl pushRangeE e).hosts = e.hosts ++ hostsL rs ∧
-    (e.IdsOk → (rs.foldl pushRangeE e).IdsOk) ∧ (rs.foldl pushRangeE e).its = e.its := by
-  induction rs with
-  | nil => intro e hg _; exact ⟨hg, by simp [hostsL], id, rfl⟩
-  | cons r rest ih =>
-    intro e hg hr
-    obtain ⟨g1, h1⟩ := pushRangeE_hosts e r hg (hr r (by simp))
-    obtain ⟨k1, k2⟩ := pushRangeE_keeps e r
-    obtain ⟨g2, h2, k3, k4⟩ := ih (pushRangeE e r) g1 (fun x hx => hr x (by simp [hx]))
-    simp only [List.foldl_cons]
-    refine ⟨g2, ?_, fun h => k3 (k1 h), by rw [k4, k2]⟩
-    rw [h2, h1, hostsL_cons, List.append_assoc]
-
-/-- `hostlist_push_list` onto the editable list -/
-theorem pushListE_spec (e : EL) (n : HL) (hg : e.Good) (hn : n.Good) :
-    (pushListE e n).Good ∧ (pushListE e n).hosts = e.hosts ++ n.hosts ∧
-    (e.IdsOk → (pushListE e n).IdsOk) ∧ (pushListE e n).its = e.its := by
-  unfold pushListE
-  exact foldl_pushRangeE n.ranges.toList e hg hn.1
-
 /-! ### the words of a command line, by meaning -/
 inductive CW where
   | tgt (w : Spec.Word)
